@@ -59,6 +59,10 @@ ATOMS: list[tuple[str, tuple[str, ...], bool, str]] = [
     ("PEEK[-1..]", (), True, ""),
     ("PEEK[1..]", (), True, ""),
     ("PEEK[..-1]", (), True, ""),
+    ("PEEK[..0]", (), True, ""),      # an end bound that is literally 0: the empty slice, not "no bound"
+    ("PEEK[0..0]", (), True, ""),
+    ("PEEK[-2..0]", (), True, ""),
+    ("PEEK[0..]", (), True, ""),
     # the empty string on the stack, and the stack observed right after a conditional push
     ('PUSH("a"?) ~ PEEK', (), True, ""),
     ('PUSH("a"*) ~ PEEK_ALL', (), True, ""),
@@ -98,6 +102,9 @@ CONTEXTS: list[tuple[str, str, bool, tuple[str, ...]]] = [
     ('PUSH_LITERAL("b") ~ PUSH_LITERAL("a") ~ {x} ~ "b"?', "x", False, ()),
     ('({x} ~ "b") | {x}', "x", False, ()),
     ("nb ~ {x} ~ nb", "n", False, ("nb",)),
+    # a tag directly on the operand (a tagged REFERENCE when the operand is a rule name), followed by a
+    # non-silent rule that must not inherit a tag nobody consumed
+    ("#tt = {x} ~ nb?", "x", False, ("nb",)),
 ]
 
 START_MODS = ["", "_", "@", "$", "!"]
